@@ -84,6 +84,16 @@ def run(ctx):
             for ti, to in zip(l.split(), o.split()):
                 if (ti in res_user or ti in RESERVED) and ti != to:
                     ctx.fail("reserved word token %r was changed to %r" % (ti, to), {"line": l, "words": words, "reserved": res_user}, o, label="impl")
+    # secrets stage: a value that is a reserved word (built-in or user-supplied, as given) is left as is
+    rs = textgen.pipe(["username admin password CorpDefault\n", "snmp-server community CorpDefault RO\n", "enable password description\n", "password corpdefault\n"], flags="p", reserved=["CorpDefault"])
+    rm, ri = ctx.correspond([rs], project=lambda c, o: textgen.norm(o), label="reserved-secret")
+    if not ri[0].startswith("RAISED"):
+        ro = textgen.outlines(ri[0])
+        for k in (0, 1, 2):
+            if ro[k] != rs[11 + k]:
+                ctx.fail("a secret value equal to a reserved word was not left as is", {"line": rs[11 + k], "reserved": ["CorpDefault"]}, ro[k], rs[11 + k], label="impl")
+        if "corpdefault" in ro[3]:
+            ctx.fail("a secret that differs in case from the user's reserved word was left in place", {"line": rs[14]}, ro[3], label="impl")
     # word lists outside the model's domain (whitespace inside a word): implementation only
     ph = textgen.pipe(["a sensitive phrase here\n", "Sensitive   Phrase\n"], flags="", words=["sensitive phrase"])
     for l, o in zip(ph[11:], textgen.outlines(vlib.run_impl([ph])[0])):
